@@ -568,6 +568,7 @@ type precCase struct {
 	Expect  string   `json:"expect"` // derivation's tree (wire format) of what parseTopLevelExpr must build
 	Output  []string `json:"output"` // expected prints of the test statement(s)
 	legal   bool
+	start   int // offset in Line where the expression text begins (the perturbation leaves the statement head alone)
 	nodes   int
 	ops     map[string]bool
 }
@@ -616,6 +617,7 @@ func (g *precGen) makeCase(ctx string, depth int, ly *layouter) precCase {
 			body = "x := " + zero + "\n"
 			lhs = "x" + ly.ws(false) + "=" + ly.ws(false)
 		}
+		c.start = len(lhs)
 		c.Line = lhs + ly.render(e, false) + ly.ws(false)
 		c.Skip = 2
 		c.Expect = e.sx().String()
@@ -625,6 +627,7 @@ func (g *precGen) makeCase(ctx string, depth int, ly *layouter) precCase {
 		n := 1 + g.pick(3)
 		args := []SX{Sym("call"), Str("print")}
 		c.Line = "print"
+		c.start = len(c.Line)
 		var outs []string
 		for i := 0; i < n; i++ {
 			e := g.gen(lvOr, ty(), depth)
@@ -653,6 +656,7 @@ func (g *precGen) makeCase(ctx string, depth int, ly *layouter) precCase {
 		}
 		a := retighten(&pnode{Kind: "arr", Kids: kids}, false)
 		c.nodes = countNodes(a, c.ops)
+		c.start = len("x := ")
 		c.Line = "x := " + ly.render(a, false) + ly.ws(false)
 		c.Skip = 2
 		c.Expect = a.sx().String()
@@ -662,6 +666,7 @@ func (g *precGen) makeCase(ctx string, depth int, ly *layouter) precCase {
 		a, b := g.gen(lvOr, "num", depth), g.gen(lvOr, "num", depth)
 		call := retighten(&pnode{Kind: "call", Lit: "max", Kids: []*pnode{a, b}}, false)
 		c.nodes = countNodes(call, c.ops)
+		c.start = len("x := max")
 		c.Line = "x := " + ly.render(call, false) + ly.ws(false)
 		c.Skip = 2
 		c.Expect = call.sx().String()
@@ -671,6 +676,7 @@ func (g *precGen) makeCase(ctx string, depth int, ly *layouter) precCase {
 		t := ty()
 		e := retighten(g.gen(lvOr, t, depth), true)
 		c.nodes = countNodes(e, c.ops)
+		c.start = len("x := ")
 		c.Line = "x := {" + ly.ws(false) + "k:" + ly.render(e, true) + ly.ws(false) + "}" + ly.ws(false)
 		c.Skip = 2
 		c.Expect = Lst(Sym("map"), Lst(Str("k"), e.sx())).String()
@@ -679,7 +685,9 @@ func (g *precGen) makeCase(ctx string, depth int, ly *layouter) precCase {
 	case "if-cond":
 		e := retighten(g.gen(lvOr, "bool", depth), false)
 		c.nodes = countNodes(e, c.ops)
-		c.Line = "if" + ly.sep() + ly.render(e, false) + ly.ws(false)
+		head := "if" + ly.sep()
+		c.start = len(head)
+		c.Line = head + ly.render(e, false) + ly.ws(false)
 		c.Skip = 1
 		c.Expect = e.sx().String()
 		after = "    print \"T\"\nelse\n    print \"F\"\nend\n"
@@ -857,23 +865,21 @@ const precCodeHasSliceFix = false
 var typeErrMarks = []string{"mismatched type", "takes", "expects", "expected num", "accepts values", "found", "declared but not used",
 	"invalid inferred", "only array", "must be of type any", "cannot type assert", "array repetition", "no return value", "invalid type"}
 
-func onlyTypeErrors(msg string) bool {
-	for _, line := range strings.Split(msg, "\n") {
-		if strings.Contains(line, "whitespace") || strings.Contains(line, "unexpected") || strings.Contains(line, "expected end of line") ||
-			strings.Contains(line, "expected \"") || strings.Contains(line, "expected map key") || strings.Contains(line, "expected end of input") {
-			return false
-		}
-		hit := false
-		for _, m := range typeErrMarks {
-			if strings.Contains(line, m) {
-				hit = true
-			}
-		}
-		if !hit {
-			return false
+// firstErrorIsTypeError classifies the FIRST reported error (the parser reports in order of
+// occurrence and is deterministic up to it; after a type error it propagates nil, so later
+// messages say nothing about syntax).
+func firstErrorIsTypeError(msg string) bool {
+	line := strings.SplitN(msg, "\n", 2)[0]
+	if strings.Contains(line, "whitespace") || strings.Contains(line, "unexpected") || strings.Contains(line, "expected end of line") ||
+		strings.Contains(line, "expected \"") || strings.Contains(line, "expected map key") || strings.Contains(line, "expected end of input") {
+		return false
+	}
+	for _, m := range typeErrMarks {
+		if strings.Contains(line, m) {
+			return true
 		}
 	}
-	return true
+	return false
 }
 
 func precCheck(c precCase, model *Model, r *Result) {
@@ -951,7 +957,7 @@ func precCheck(c precCase, model *Model, r *Result) {
 	case !goAccepted && !m.accepted():
 		r.Dist("cc:both-reject")
 	case !goAccepted && m.accepted():
-		if onlyTypeErrors(out.ParseErr) {
+		if firstErrorIsTypeError(out.ParseErr) {
 			r.Dist("cc:set-aside-type-error")
 			return
 		}
@@ -966,7 +972,7 @@ func precCheck(c precCase, model *Model, r *Result) {
 func perturb(rng *rand.Rand, c precCase) precCase {
 	line := c.Line
 	var pos []int
-	for i := 1; i < len(line); i++ {
+	for i := c.start + 1; i < len(line); i++ {
 		if line[i-1] != '"' && line[i] != '"' { // keep string literals intact
 			pos = append(pos, i)
 		}
@@ -1065,7 +1071,7 @@ func runC01prec(cfg Config, r *Result) {
 		precCheck(pc, model, r)
 	}
 	g := &precGen{rng: cfg.Rng}
-	n := cfg.N(1500, 40000)
+	n := cfg.N(3000, 80000)
 	maxDepth := cfg.N(6, 10)
 	for i := 0; i < n; i++ {
 		ctx := precContexts[g.pick(len(precContexts))]
